@@ -22,6 +22,13 @@ Definition delivered (s : svstate) (k : str) : Prop :=
 
 Definition ev_in (e : sev) (s : svstate) : Prop := e ∈ v_trace s.
 
+(** the session ids for which a connection was opened, newest first *)
+Definition connects (tr : list sev) : list str := omap (λ e, match e with SvConnect sid => Some sid | _ => None end) tr.
+
+(** the network is up: the closer (if any) has not yet stopped it *)
+Definition net_open (s : svstate) : Prop :=
+  ∀ tid t, v_thr s !! tid = Some t → st_op t = SShutdown → st_pc t = VShFlag ∨ st_pc t = VShNet.
+
 (** ** Meaningful schedule items *)
 Definition sitem_ok (s : svstate) (it : sitem) : Prop :=
   match it with
@@ -33,12 +40,14 @@ Definition sitem_ok (s : svstate) (it : sitem) : Prop :=
           (* requests arrive on a live connection *)
           ev_in (SvConnect sid) s ∧ ¬ ev_in (SvConnEnd sid) s ∧
           (* validated parameters *)
-          (∀ t, lt = Some t → 0 ≤ t)
+          (∀ t, lt = Some t → 0 ≤ t) ∧
+          (* the listeners are closed by the closer's network stop: no new request afterwards *)
+          net_open s
       | SUnlock _ k =>
           (* nobody can present a key before its grant was delivered to a client *)
-          (∀ tid' t', v_thr s !! tid' = Some t' → is_acq (st_op t') = true → op_key' (st_op t') = Some k → delivered s k)
+          (∀ tid' t', v_thr s !! tid' = Some t' → is_acq (st_op t') = true → op_key' (st_op t') = Some k → delivered s k) ∧ net_open s
       | SRenew _ k lt =>
-          (∀ tid' t', v_thr s !! tid' = Some t' → is_acq (st_op t') = true → op_key' (st_op t') = Some k → delivered s k) ∧ 0 < lt
+          (∀ tid' t', v_thr s !! tid' = Some t' → is_acq (st_op t') = true → op_key' (st_op t') = Some k → delivered s k) ∧ 0 < lt ∧ net_open s
       | _ => True
       end
   | VConnect sid => ¬ ev_in (SvConnect sid) s            (* session ids are fresh *)
@@ -128,8 +137,13 @@ Record SvInv (cfg : svcfg) (s : svstate) : Prop := {
   (* DestroySession: it runs for an ended connection; the holds it still has to release were listed in its session (their
      entries are gone, their acquiring calls are past AddLock); between its timer removal and its unlock no lease of the
      hold is armed, unless by the cancelled acquiring call itself *)
-  vi_ds_ended : ∀ tid t sid, v_thr s !! tid = Some t → st_op t = SConnEnd sid →
-      (ev_in (SvConnEnd sid) s ∨ v_shut s = true) ∧ (st_pc t = VDsFlag ∨ st_pc t = VEnd ∨ ev_in (SvConnEnd sid) s);
+  vi_ds_ended : ∀ tid t sid, v_thr s !! tid = Some t → st_op t = SConnEnd sid → ev_in (SvConnEnd sid) s;
+  (* a connection ends once (by the client's disconnect or by the closer's network stop): one DestroySession per session *)
+  vi_ds_unique : ∀ t1 t2 x1 x2 sid, v_thr s !! t1 = Some x1 → v_thr s !! t2 = Some x2 → st_op x1 = SConnEnd sid → st_op x2 = SConnEnd sid → t1 = t2;
+  vi_connect_once : NoDup (connects (v_trace s));
+  (* under no-clear-on-disconnect DestroySession is the flag check and the atomic DestroySessionIfEmpty, nothing else *)
+  vi_ds_noclear : ∀ tid t sid, v_thr s !! tid = Some t → st_op t = SConnEnd sid →
+      if sc_noclear cfg then st_pc t = VDsFlag ∨ st_pc t = VDsNoClear ∨ st_pc t = VEnd else st_pc t ≠ VDsNoClear;
   vi_ds_todo : ∀ tid t sid c, v_thr s !! tid = Some t → st_op t = SConnEnd sid →
       ds_pending (st_pc t) c →
       (∃ tid' t', v_thr s !! tid' = Some t' ∧ acquirer t' sid (cl_name c) (cl_key c) (cl_size c) ∧ (st_pc t' = VTmAdd ∨ ∃ r, st_pc t' = VFin r)) ∧
